@@ -569,11 +569,15 @@ class BaseNode402(RemoteNode):
             return State402.next_state_indirect(from_state)
 
     def _change_state(self, target_state):
+        from_state = self.state
+        if from_state == target_state:
+            # Nothing to do, e.g. an automatic transition has just taken place
+            return True
         try:
-            self.controlword = State402.TRANSITIONTABLE[(self.state, target_state)]
+            self.controlword = State402.TRANSITIONTABLE[(from_state, target_state)]
         except KeyError:
             raise ValueError(
-                f'Illegal state transition from {self.state} to {target_state}')
+                f'Illegal state transition from {from_state} to {target_state}')
         timeout = time.monotonic() + self.TIMEOUT_SWITCH_STATE_SINGLE
         while self.state != target_state:
             if time.monotonic() > timeout:
